@@ -20,7 +20,12 @@ from cnfgen.formula.variables import VariablesManager
 from detsim.core import Violation, call, exc_signature
 from detsim.runner import REPO
 from detsim.simrandom import SimRandom, installed
-from checks import registry
+from checks import cligrammar, registry
+from cnfgen.clitools.cmdline import CLIError
+from cnfgen.clitools.cnfgen import cli as _cnfgen_cli
+from cnfgen.clitools.pbgen import cli as _pbgen_cli
+
+_CLI = {"cnfgen": _cnfgen_cli, "pbgen": _pbgen_cli}
 
 ID = "C10"
 LEVEL = "exploration"
@@ -63,8 +68,9 @@ MANIFEST = {
                  "oracle",
 }
 CONFIGS = {
-    "quick": [("api_cnf", 40000), ("api_opb", 25000), ("family", 30000)],
-    "thorough": [("api_cnf", 3), ("api_opb", 2), ("family", 5)],
+    "quick": [("api_cnf", 40000), ("api_opb", 25000), ("family", 30000),
+              ("cli", 900)],
+    "thorough": [("api_cnf", 3), ("api_opb", 2), ("family", 5), ("cli", 1)],
 }
 CHUNK = 150
 
@@ -223,6 +229,12 @@ TRANS_NAMES = sorted(registry.TRANSFORMS)
 
 
 def generate(rng, config):
+    if config == "cli":
+        tool = rng.choice(["cnfgen", "cnfgen", "pbgen"])
+        c = cligrammar.command_line(rng, tool, seed=rng.randrange(1000),
+                                    options=False)
+        return {"cli": tool, "argv": c["argv"],
+                "prng_seed": rng.randrange(2 ** 32)}
     if config == "family":
         name = rng.choice(FAMILY_NAMES)
         scale = rng.choice([1, 1, 2, 2, 3])
@@ -344,12 +356,43 @@ def execute(case, ctx):
     mon = Monitor()
     mon.install()
     try:
-        if "family" in case:
+        if "cli" in case:
+            _exec_cli(case, ctx, mon)
+        elif "family" in case:
             _exec_family(case, ctx, mon)
         else:
             _exec_api(case, ctx, mon)
     finally:
         mon.uninstall()
+
+
+def _exec_cli(case, ctx, mon):
+    """Formulas returned by the command line tools (mode='formula')."""
+    import cnfgen.clitools.msg as climsg
+    tool = case["cli"]
+    climsg._prefix = ""
+    with installed(SimRandom(case["prng_seed"])):
+        r = call(_CLI[tool], list(case["argv"]), mode="formula")
+    climsg._prefix = ""
+    ctx.log("cli", case["argv"], r[0])
+    ctx.shape = tuple(case["argv"])
+    where = " ".join(case["argv"])
+    if r[0] == "exc":
+        if isinstance(r[1], CLIError):
+            ctx.note("command-line error")
+            return
+        raise Violation("C10/cli-failed/%s" % exc_signature(r[1], REPO),
+                        "%s\n%r" % (where, r[1]))
+    F = r[1]
+    _raise_monitor(mon, "cli:" + case["argv"][1 if len(case["argv"]) > 1
+                                              else 0])
+    n, mx, prob = scan(F)
+    if prob:
+        raise Violation("C10/literal-range/cli", "%s\n%s" % (where, prob))
+    if not F.debug(allow_opposite=True, allow_repetition=True):
+        raise Violation("C10/debug-disagrees/cli", where)
+    ctx.nontrivial = len(F) > 0
+    ctx.probe("cli formula scanned")
 
 
 def _raise_monitor(mon, where):
